@@ -226,6 +226,17 @@ pub fn run(o: &Opts) -> Report {
                 c[i].content = invalid_content();
                 mutants.push((format!("corrupt:{}", c[i].tag), c, true));
             }
+            {
+                // the same field position under an option letter the layout does not allow there
+                let mut c = msg.chunks.clone();
+                let i = rng.below(nchunks);
+                let base: String = c[i].tag.chars().take(2).collect();
+                let l = *rng.pick(&["A", "B", "C", "D", "F", "G", "H", "K", "L", "P", "Z", ""]);
+                let t = format!("{base}{l}");
+                let content = if rng.below(2) == 0 { pool.by_tag.get(&t).map(|v| rng.pick(v).clone()).unwrap_or("LINE ONE\nLINE TWO".into()) } else { "LINE ONE\nLINE TWO".to_string() };
+                if rng.below(2) == 0 { c[i] = Chunk { tag: t, content }; } else { c.insert(i, Chunk { tag: t, content }); }
+                mutants.push(("foreign_option".into(), c, false));
+            }
             for (class, chunks, corrupt) in mutants {
                 let mtags: Vec<String> = chunks.iter().map(|c| c.tag.clone()).collect();
                 let outside = corrupt || !mgen::in_grammar(g, &mtags);
